@@ -275,6 +275,7 @@ class FakeSnowflakeCursor:
             # the new database's default schema (main) is now in effect, not the previous database's schema
             self._conn.schema = None
             self._conn.schema_set = False
+            result_sql = SQL_SUCCESS
 
         elif set_schema := transformed.args.get("set_schema"):
             self._conn.schema = set_schema
@@ -283,6 +284,11 @@ class FakeSnowflakeCursor:
                 # USE SCHEMA <database>.<schema>
                 self._conn.database = set_schema_database
                 self._conn.database_set = True
+            result_sql = SQL_SUCCESS
+
+        elif cmd in ("TRANSACTION", "COMMIT", "ROLLBACK", "TRUNCATETABLE"):
+            # these have no result set in duckdb, snowflake returns the success status
+            result_sql = SQL_SUCCESS
 
         elif create_db_name := transformed.args.get("create_db_name"):
             # we created a new database, so create the info schema extensions
@@ -348,6 +354,8 @@ class FakeSnowflakeCursor:
             schema = table.db or self._conn.schema
             assert catalog and schema
             self._duck_conn.execute(info_schema.insert_table_comment_sql(catalog, schema, table.name, comment))
+            # don't return the result of the insert above
+            result_sql = result_sql or SQL_SUCCESS
 
         if (text_lengths := cast(list[tuple[str, int]], transformed.args.get("text_lengths"))) and (
             table := transformed.find(exp.Table)
